@@ -4,9 +4,14 @@ the association lists are maps, listings are exact and sorted, tags resolve to
 the last accepted push, a manifest is accepted only when its references are
 sane, and the error-code table.
 
+R7 is the umbrella sentence itself: `Mem` (the model of the code) refines `MemSpec` (the simple
+reference registry: per repository three partial maps as functions), for all 22 operations and
+every history — same outputs, same abstract state.
+
 `H : Bytes → Bytes` is a parameter; nothing is assumed about it.
 -/
 import OciModel.MemLemmas
+import OciModel.MemSpecLemmas
 
 namespace OciModel.Props.C02
 open OciModel OciModel.Mem
@@ -336,5 +341,133 @@ example (dd : Desc) :
 example : (run toyH (init false)
       [.pushManifest repoA tagV1 [1, 2] mtX .opaque, .pushManifest repoA [] [1, 2] [121] .opaque]).2
     = [.okDesc ⟨mtX, toyH [1, 2], 2⟩, .okDesc ⟨[121], toyH [1, 2], 2⟩] := by decide
+
+/-! ### R7. The umbrella sentence: every result is the one the reference registry predicts
+
+`MemSpec` (`OciModel/MemSpec.lean`) is the reference model of the property text: per repository
+name three partial maps as functions (blobs by digest, manifests by digest, tags to descriptors),
+upload sessions as a function from ids, the set of known repositories, the immutable-tags flag;
+`MemSpec.step` is written from the property's sentences and never mentions an association list.
+`MemSpec.abs` reads a state of the code's model as such a registry (`abs_reads`). -/
+
+/-- What `abs` means: lookups of the association lists as functions (first match), the key
+lists as domains; the buffers' `committed` flag is dropped. -/
+theorem abs_reads (s : State) (r : Bytes) (rp : Repo) (k : Bytes) :
+    (MemSpec.abs s).immutableTags = s.immutableTags ∧ (MemSpec.abs s).nextID = s.nextID ∧
+    (MemSpec.abs s).repos.get r = (getRepo s r).map MemSpec.absRepo ∧
+    (MemSpec.abs s).repos.dom = s.repos.map (·.1) ∧
+    (MemSpec.absRepo rp).blobs k = (alookup k rp.blobs).map (fun b => ⟨b.mediaType, b.data⟩) ∧
+    (MemSpec.absRepo rp).manifests.get k =
+      (alookup k rp.manifests).map (fun b => ⟨b.mediaType, b.data, b.subject, b.refs⟩) ∧
+    (MemSpec.absRepo rp).manifests.dom = rp.manifests.map (·.1) ∧
+    (MemSpec.absRepo rp).tags.get k = alookup k rp.tags ∧
+    (MemSpec.absRepo rp).tags.dom = rp.tags.map (·.1) ∧
+    (MemSpec.absRepo rp).uploads k = (alookup k rp.uploads).map (fun b => ⟨b.buf, b.checkStart, b.commitErr⟩) :=
+  ⟨rfl, rfl, rfl, rfl, rfl, rfl, rfl, by simp [MemSpec.absRepo], rfl, rfl⟩
+
+/-- One step, any of the 22 operations, from any state whose association lists have unique keys
+(every reachable state: `keysUnique_run`): the code's model answers what the reference registry
+answers, and the two successor states denote the same registry. Equality of `MemSpec.State`s is
+equality of their map fields as functions, i.e. extensional equality of the maps. -/
+theorem mem_refines_spec_step {s : State} (hs : KeysUnique s) (op : Op) :
+    (MemSpec.step H (MemSpec.abs s) op).2 = (step H s op).2 ∧
+    MemSpec.abs (step H s op).1 = (MemSpec.step H (MemSpec.abs s) op).1 :=
+  ⟨MemSpec.step_out H hs op, (MemSpec.step_state H hs op).symm⟩
+
+/-- Any history from any such state. -/
+theorem mem_refines_spec_from {s : State} (hs : KeysUnique s) (ops : List Op) :
+    (MemSpec.run H (MemSpec.abs s) ops).2 = (run H s ops).2 ∧
+    MemSpec.abs (run H s ops).1 = (MemSpec.run H (MemSpec.abs s) ops).1 := by
+  rw [MemSpec.run_abs H hs ops]; exact ⟨rfl, rfl⟩
+
+/-- C02's umbrella sentence: over every finite history of operations from the empty registry, in
+both configurations, every result the model of ocimem returns is the result the reference
+registry predicts. No hypothesis. -/
+theorem mem_refines_spec (imm : Bool) (ops : List Op) :
+    (run H (init imm) ops).2 = (MemSpec.run H (MemSpec.init imm) ops).2 := by
+  rw [MemSpec.run_init]
+
+/-- … and the states stay related: after every history the code's state denotes the reference state. -/
+theorem mem_refines_spec_state (imm : Bool) (ops : List Op) :
+    MemSpec.abs (run H (init imm) ops).1 = (MemSpec.run H (MemSpec.init imm) ops).1 := by
+  rw [MemSpec.run_init]
+
+/-- The reference registry's own invariant along every history: each enumerated domain
+(repositories, a repository's manifests, its tags) is exactly the set of bound keys, each once … -/
+theorem spec_domains_exact (imm : Bool) (ops : List Op) :
+    (MemSpec.run H (MemSpec.init imm) ops).1.WF := MemSpec.run_wf H imm ops
+
+/-- … so a listing of the reference registry is exactly the bound keys strictly after `start`. -/
+theorem spec_listing_exact {β : Type} {p : MemSpec.PMap β} (h : p.WF) (start k : Bytes) :
+    k ∈ p.keysAfter start ↔ ((p.get k).isSome = true ∧ compare start k = .lt) := by
+  simp [MemSpec.PMap.keysAfter, Mem.mem_sortBytes, h.2 k]
+
+/-! The hypotheses are satisfiable, and the two machines computed side by side. -/
+
+example : (MemSpec.step toyH (MemSpec.abs demoState) (.tags repoA tagV1)).2 = .okList [tagV2] ∧
+    MemSpec.abs (step toyH demoState (.deleteTag repoA tagV1)).1
+      = (MemSpec.step toyH (MemSpec.abs demoState) (.deleteTag repoA tagV1)).1 :=
+  ⟨by decide, (mem_refines_spec_step toyH (keysUnique_run toyH _ _ (keysUnique_init false)) _).2⟩
+
+example : (MemSpec.run toyH (MemSpec.abs demoState) [.deleteTag repoA tagV1, .tags repoA []]).2
+    = (run toyH demoState [.deleteTag repoA tagV1, .tags repoA []]).2 :=
+  (mem_refines_spec_from toyH (keysUnique_run toyH _ _ (keysUnique_init false)) _).1
+
+example : (MemSpec.abs demoState).repos.WF ∧ ∀ k, k ∈ (MemSpec.abs demoState).repos.keysAfter [] ↔
+    (((MemSpec.abs demoState).repos.get k).isSome = true ∧ compare [] k = .lt) :=
+  have h := (MemSpec.abs_wf (keysUnique_run toyH (init false) demoOps (keysUnique_init false))).1
+  ⟨h, spec_listing_exact h []⟩
+
+/-- Push blobs, push a manifest under a tag, a referrer of it, list, delete tag / manifest / blob,
+read what was deleted, list again. -/
+def refineOps : List Op :=
+  demoOps ++
+  [ .tags repoA [], .referrers repoA (toyH man1), .getTag repoA tagV1,
+    .pushManifest repoB [] man1 mtX (.refs [⟨0, ⟨mtX, toyH man2, 3⟩⟩]),   -- names a missing blob
+    .deleteTag repoA tagV1, .resolveTag repoA tagV1, .tags repoA [],
+    .deleteManifest repoA (toyH man2), .getManifest repoA (toyH man2), .referrers repoA (toyH man1),
+    .deleteBlob repoA (toyH blob1), .getBlob repoA (toyH blob1), .getBlob repoB (toyH blob1),
+    .getBlobRange repoB (toyH blob1) 0 (-1), .repositories [], .repositories repoA ]
+
+def refineOut : List Out :=
+  [ .okDesc ⟨mtX, toyH blob1, 1⟩, .okDesc ⟨mtX, toyH blob1, 1⟩,
+    .okDesc ⟨mtX, toyH man1, 2⟩, .okDesc ⟨mtX, toyH man2, 3⟩,
+    .okList [tagV1, tagV2], .okDescs [⟨mtX, toyH man2, 3⟩], .okRead ⟨mtX, toyH man2, 3⟩ man2,
+    .err "ERR",
+    .okUnit, .err "MANIFEST_UNKNOWN", .okList [tagV2],
+    .okUnit, .err "MANIFEST_UNKNOWN", .okDescs [],
+    .okUnit, .err "BLOB_UNKNOWN", .okRead ⟨mtX, toyH blob1, 1⟩ blob1,
+    .okRead ⟨mtX, toyH blob1, 1⟩ blob1, .okList [repoA, repoB], .okList [repoB] ]
+
+/-- The reference registry's outputs, computed … -/
+example : (MemSpec.run toyH (MemSpec.init false) refineOps).2 = refineOut := by decide
+/-- … the outputs of the model of the code, computed … -/
+example : (run toyH (init false) refineOps).2 = refineOut := by decide
+/-- … and they agree (also computed; `mem_refines_spec` says so for every history). -/
+example : (run toyH (init false) refineOps).2 = (MemSpec.run toyH (MemSpec.init false) refineOps).2 := by decide
+
+/-- Chunked upload and mount go through the refinement too. -/
+example :
+    let ops : List Op := [.pushChunked repoA, .wWrite repoA (freshID 0) blob1, .wSize repoA (freshID 0),
+      .wCommit repoA (freshID 0) (toyH blob1), .mount repoA repoB (toyH blob1), .getBlob repoB (toyH blob1),
+      .resume repoA (freshID 0) 5, .wWrite repoA (freshID 0) blob1, .wCancel repoA (freshID 0),
+      .wCommit repoA (freshID 0) (toyH blob1)]
+    (MemSpec.run toyH (MemSpec.init false) ops).2 = (run toyH (init false) ops).2 ∧
+    (run toyH (init false) ops).2 =
+      [.okWriter (freshID 0), .okN 1, .okN 1, .okDesc ⟨octetStream, toyH blob1, 1⟩,
+       .okDesc ⟨octetStream, toyH blob1, 1⟩, .okRead ⟨octetStream, toyH blob1, 1⟩ blob1,
+       .okWriter (freshID 0), .err "RANGE_INVALID", .okUnit, .err "ERR"] := by decide
+
+/-- Immutable-tags mode: the reference registry's reachability test is structurally recursive, so
+its answers compute; by `mem_refines_spec` they are the answers of the model of the code (whose
+`refersTo` is defined by well-founded recursion and does not reduce under `decide`). -/
+example :
+    (run toyH (init true)
+      [.pushManifest repoA tagV1 man1 mtX .opaque, .deleteManifest repoA (toyH man1),
+       .deleteTag repoA tagV1, .pushManifest repoA [] man1 [121] .opaque,
+       .pushManifest repoA tagV1 man1 mtX .opaque, .pushManifest repoA tagV1 man2 mtX .opaque]).2
+    = [.okDesc ⟨mtX, toyH man1, 2⟩, .err "DENIED", .err "DENIED", .err "DENIED",
+       .okDesc ⟨mtX, toyH man1, 2⟩, .err "DENIED"] := by
+  rw [mem_refines_spec]; decide
 
 end OciModel.Props.C02
